@@ -492,7 +492,8 @@ void do_cresp(const ev::Cmd& c) {
     if (cmd == "STORE") {
         exact("CODE", "OK_STORE");
         exact("SIZE", std::to_string(payload.size()));
-        if (!path.empty()) { exact("SOURCE", path); if (!harness_basename(path).empty()) exact("FILENAME", harness_basename(path)); }
+        if (!path.empty()) { exact("SOURCE", path); const std::string b = harness_basename(path);   // the node may rewrite unusual characters of the stored name
+            if (!b.empty() && std::all_of(b.begin(), b.end(), [](unsigned char ch) { return std::isalnum(ch) || ch == '.' || ch == '_' || ch == '-'; })) exact("FILENAME", b); }
         if (auto m = got_of("MANIFEST"); m && ok) g_manifest[label_of(ch, sz)] = *m;
     }
     std::vector<std::string> js;
